@@ -1,7 +1,7 @@
 (* C07 property theorems. Statements only; proofs are `exact lemma`. Third-party compressors appear as universally
    quantified functions with their round-trip behaviour as premises. All theorems are for every input (no bound). *)
 From Coq Require Import ZArith List Bool Lia.
-From OG Require Import C07.Model C07.ModelRows C07.ModelFile C07.ModelPreAgg C07.ModelCMSelf C07.ModelStats C07.ProofsPreAgg C07.ProofsCMSelf C07.ProofsStats C07.ProofsFile C07.ProofsRows C07.ProofsBase C07.ProofsS8 C07.ProofsInt C07.ProofsBool C07.ProofsFloat C07.ProofsString C07.ProofsSeg.
+From OG Require Import C07.Model C07.ModelRows C07.ModelFile C07.ModelPreAgg C07.ModelCMSelf C07.ModelStats C07.ModelMerge C07.ModelWhole C07.ProofsPreAgg C07.ProofsCMSelf C07.ProofsStats C07.ProofsMerge C07.ProofsWhole C07.ProofsFile C07.ProofsRows C07.ProofsBase C07.ProofsS8 C07.ProofsInt C07.ProofsBool C07.ProofsFloat C07.ProofsString C07.ProofsSeg.
 Import ListNotations.
 Open Scope Z_scope.
 
@@ -426,3 +426,105 @@ Example C07_ex_stats :
   int_build true [[(Some 5, 10); (None, 20)]; [(Some (M64 - 3), 30); (Some 5, 40)]] = mkStat (M64 - 3) 5 30 10 7 3 /\
   int_build true [[(Some max_i64, 10)]] = mkStat max_i64 max_i64 10 10 max_i64 1.
 Proof. vm_compute. split; reflexivity. Qed.
+
+(* ---- the MERGE paths of the statistics builders (streaming compaction) ----
+   IntegerPreAgg.merge hands the other block's min / max over as float64: `via_f64` (round to nearest even at 53 bits) is
+   the identity on |v| <= 2^53 *)
+Theorem C07_via_f64_exact : forall u, 0 <= u < M64 -> exact53 u = true -> via_f64 u = u.
+Proof. exact via_f64_exact. Qed.
+Print Assumptions C07_via_f64_exact.
+
+(* merging statistics of row set A with statistics of row set B gives statistics of A ++ B: least value with the earliest
+   time it occurs at, greatest value likewise, wrapping sum, count - provided B's min and max are integers a float64
+   represents (EXPLICIT DEPENDENCY: |v| <= 2^53, true for every integer the write path stores: line-protocol integers are
+   parsed through float64, property C06; beyond it the real merge rounds, which `via_f64` models and the tie checks) *)
+Theorem C07_int_merge_is_stat_of_union : forall a b A B,
+  Forall Wp A -> Forall Wp B -> is_stat_of a A -> is_stat_of b B ->
+  exact53 (s_min b) = true -> exact53 (s_max b) = true ->
+  is_stat_of (int_merge via_f64 a b) (A ++ B).
+Proof. exact int_merge_is_stat_of_union. Qed.
+Print Assumptions C07_int_merge_is_stat_of_union.
+
+(* what the (repaired) builder stores for a time-sorted chunk IS statistics of its rows in that sense (the first occurrence
+   of an extreme is its earliest), so: two chunks of one series compacted by merging their stored statistics *)
+Theorem C07_builder_stat_of_rows : forall segs,
+  let l := values_of (concat segs) in
+  l <> [] -> Forall Wp l -> time_sorted l -> len l < M64 -> is_stat_of (int_build true segs) l.
+Proof. exact builder_stat_of_rows. Qed.
+
+Theorem C07_compaction_merge_is_stat_of_rows : forall segsA segsB,
+  let A := values_of (concat segsA) in
+  let B := values_of (concat segsB) in
+  A <> [] -> B <> [] -> Forall Wp A -> Forall Wp B -> time_sorted A -> time_sorted B -> len A < M64 -> len B < M64 ->
+  exact53 (s_min (int_build true segsB)) = true -> exact53 (s_max (int_build true segsB)) = true ->
+  is_stat_of (int_merge via_f64 (int_build true segsA) (int_build true segsB)) (A ++ B).
+Proof. exact compaction_merge_is_stat_of_rows. Qed.
+Print Assumptions C07_compaction_merge_is_stat_of_rows.
+
+(* beyond 2^53 the float64 round trip really loses the value: 2^53 + 1 comes back as 2^53 *)
+Example C07_ex_via_f64 :
+  via_f64 (P53 + 1) = P53 /\ via_f64 (P53 + 3) = P53 + 4 /\ via_f64 (M63 - 1) = M63 /\ via_f64 M63 = M63 /\
+  int_merge via_f64 (mkStat 5 5 10 10 5 1) (mkStat 3 9 20 30 12 2) = mkStat 3 9 20 30 17 3 /\
+  int_merge via_f64 (mkStat 5 5 10 10 5 1) (mkStat 5 5 7 70 5 1) = mkStat 5 5 7 10 10 2.
+Proof. vm_compute. repeat split. Qed.
+
+(* ---- meta-index entries, trailer incl. extra data (dictionary), chunk-meta blocks: bytes ---- *)
+Theorem C07_mindex_list_roundtrip : forall mis rest, Forall (fun m => mindex_ok m = true) mis ->
+  get_n d_mindex (length mis) (flat_map e_mindex mis ++ rest) = Some (mis, rest).
+Proof. exact mindex_list_roundtrip. Qed.
+
+Theorem C07_trailer_roundtrip : forall t rest, trailer_ok t = true -> d_trailer (e_trailer t ++ rest) = Some (t, rest).
+Proof. exact trailer_roundtrip. Qed.
+Print Assumptions C07_trailer_roundtrip.
+
+Theorem C07_block_items_roundtrip : forall items, items <> [] -> 0 < len (concat items) < M32 ->
+  block_items (len items) (block_plain items) = Some items.
+Proof. exact block_items_roundtrip. Qed.
+
+(* THE WHOLE-FILE THEOREM, for every chunk-meta-compress-mode (snappy / lz4 as functions with their round trip as premise):
+   header with the magic, any data area, blocks of chunk metas stored under the mode and located by their meta-index
+   entries, any bloom filter and id-time section, a trailer whose sizes describe the areas (its dictionary names the
+   columns under mode self), the footer: the reader returns exactly the trailer, the meta-index entries and every chunk meta.
+   Together with C07_file_roundtrip (every segment is found at the offset / size a chunk meta records and decodes to its
+   null pattern and block) this composes segment, chunk-meta, meta-index and trailer layers. *)
+Theorem C07_whole_file_roundtrip : forall (bcomp : Z -> list Z -> list Z) (bdec : Z -> list Z -> option (list Z)),
+  (forall mode x, bdec mode (bcomp mode x) = Some x) ->
+  forall mode H D blks B I t,
+  mode_ok mode = true -> trailer_ok t = true -> t_cmode t = mode ->
+  t_data_off t = len H -> t_data_size t = len D ->
+  t_index_size t = len (concat (map (blk_bytes bcomp mode) blks)) ->
+  t_mindex_size t = 40 * len blks -> t_mindex_num t = len blks ->
+  blks_placed bcomp mode (t_dict t) (len H + len D) blks ->
+  len (file_body bcomp mode H D blks B I) < M63 ->
+  firstn (length g_table_magic) H = g_table_magic ->
+  read_file bdec (file_bytes bcomp mode H D blks B I t) = Some (t, map snd blks, map blk_cms blks).
+Proof. exact whole_file_roundtrip. Qed.
+Print Assumptions C07_whole_file_roundtrip.
+
+(* the hypotheses of the whole-file theorem are satisfiable: a one-series file under mode none and under mode self *)
+Definition ex_cm : chunk_meta :=
+  (7, (16, (60, ([(1000, 5000); (6000, 9000)],
+   [([102], (1, ([1; 2; 3], [(20, 10); (30, 12)]))); ([116; 105; 109; 101], (1, ([0; 0; 0; 2], [(46, 14); (60, 16)])))])))).
+Definition ex_H : list Z := g_table_magic ++ be 8 2.
+Definition ex_D : list Z := repeat 0 60.
+Definition ex_blk (mode : Z) : blk :=
+  let cs := [((1, [0; 1]), ex_cm)] in
+  (cs, (7, (1000, (9000, (76, (1, len (cs_bytes (fun _ x => x) mode cs))))))).
+Definition ex_trailer (mode : Z) : trailer :=
+  ([16; 60; len (cs_bytes (fun _ x => x) mode (fst (ex_blk mode))); 40; 0; 0; 1; 7; 7; 1000; 9000; 1; 0; 0],
+   (0, (mode, ((if mode =? g_cm_mode_self then [[102]; [116; 105; 109; 101]] else []), [109; 115; 116])))).
+
+Ltac ex_placed :=
+  cbn [blks_placed ex_blk snd fst];
+  split; [vm_compute; reflexivity|]; split; [vm_compute; reflexivity|]; split; [reflexivity|]; split; [reflexivity|];
+  split; [discriminate|]; split; [vm_compute; reflexivity|]; split; [vm_compute; reflexivity|];
+  split; [|exact I]; constructor; [vm_compute; reflexivity|constructor].
+Example C07_ex_whole_file :
+  forall mode, In mode [g_cm_mode_none; g_cm_mode_snappy; g_cm_mode_lz4; g_cm_mode_self] ->
+  trailer_ok (ex_trailer mode) = true /\
+  blks_placed (fun _ x => x) mode (t_dict (ex_trailer mode)) (len ex_H + len ex_D) [ex_blk mode] /\
+  read_file (fun _ x => Some x) (file_bytes (fun _ x => x) mode ex_H ex_D [ex_blk mode] [] [] (ex_trailer mode))
+    = Some (ex_trailer mode, [snd (ex_blk mode)], [[ex_cm]]).
+Proof.
+  intros mode [<-|[<-|[<-|[<-|[]]]]]; (split; [vm_compute; reflexivity|]); (split; [ex_placed|vm_compute; reflexivity]).
+Qed.
